@@ -1,0 +1,9 @@
+//go:build verif
+
+package sourcebundle
+
+// Contracts for the govc verifier (see /verif/DESIGN.md). This file contains
+// comments only; it is compiled only with the "verif" build tag.
+
+//@ func OpenDir -> (b, err)
+//@   sweep
